@@ -122,18 +122,24 @@ def run(ck):
     def gen(kind, alias):
         tag = "alias" if alias else "user"
         A = "Alias = TRUE" if alias else "Alias = FALSE"
+        if kind == "coverx":
+            # user symbols spelled like prefix + symbol (kfoo defined in its own right): state cover to length 3 (quick) / 4 (thorough)
+            ml = ck.q(3, 4)
+            cfg = open(ck.spec + "/MC_C12_cover.cfg").read().replace("MaxLen = 5", f"MaxLen = {ml}").replace("Alias = FALSE", A).replace("ExplicitPrefixed = FALSE", "ExplicitPrefixed = TRUE")
+            open(ck.spec + f"/MC_C12_runx_{tag}.cfg", "w").write(cfg)
+            return ck.tlc("MC_C12", f"MC_C12_runx_{tag}", workers=1, label=f"[{tag}] state space MaxLen={ml} with explicit prefix-spelled user symbols, state cover export", required_actions=["Next"], timeout=3000)
         if kind == "cover":
             # quick: one witness history per distinct state (state cover); thorough: one per explored transition
             src = ck.q("MC_C12_cover", "MC_C12_states")
             cfg = open(ck.spec + f"/{src}.cfg").read().replace("MaxLen = 5", f"MaxLen = {maxlen}").replace("Alias = FALSE", A)
             open(ck.spec + f"/MC_C12_run_{tag}.cfg", "w").write(cfg)
             return ck.tlc("MC_C12", f"MC_C12_run_{tag}", workers=1, label=f"[{tag}] state space MaxLen={maxlen} (VIEW hides history), {ck.q('state','transition')} cover export", required_actions=["Next"], timeout=3000)
-        cfg = open(ck.spec + "/MC_C12_hist.cfg").read().replace("MaxLen = 3", f"MaxLen = {depth + 5}").replace("ExportLen = 3", f"ExportLen = {depth}").replace("Alias = FALSE", A)
+        cfg = open(ck.spec + "/MC_C12_hist.cfg").read().replace("MaxLen = 3", f"MaxLen = {depth + 5}").replace("ExportLen = 3", f"ExportLen = {depth}").replace("Alias = FALSE", A).replace("ExplicitPrefixed = FALSE", "ExplicitPrefixed = TRUE")
         open(ck.spec + f"/MC_C12_sim_{tag}.cfg", "w").write(cfg)
         return ck.tlc("MC_C12", f"MC_C12_sim_{tag}", workers=1, simulate=n_sim, depth=depth + 1, label=f"[{tag}] simulation depth={depth}", timeout=1800)
 
-    jobs = [(k, a) for a in (False, True) for k in ("cover", "sim")]
-    with cf.ThreadPoolExecutor(4) as ex:
+    jobs = [(k, a) for a in (False, True) for k in ("cover", "sim")] + [("coverx", False)]
+    with cf.ThreadPoolExecutor(5) as ex:
         results = dict(zip(jobs, ex.map(lambda j: gen(*j), jobs)))
 
     # ---- phase 2: one replay batch for all histories ----
@@ -150,6 +156,13 @@ def run(ck):
         cases = [{"h": r["h"], "alias": alias} for r in hists]
         ck.sample({"alphabet": tag, "history": cases[len(cases) // 2]["h"]})
         batches.append((f"cover-{tag}", alias, cases))
+        if ("coverx", alias) in results:
+            hx = [r for r in results[("coverx", alias)].by_tag("HIST")]
+            seen = {str(c["h"]) for c in cases}
+            # keep the witnesses that actually define a prefix-spelled symbol in its own right (the others are in the main cover)
+            casesx = [{"h": r["h"], "alias": alias} for r in hx if str(r["h"]) not in seen and any(e["op"] == "add" and e["sym"] in ("kfoo", "kqux", "ks") for e in r["h"])]
+            ck.cov["bound"][tag + "+explicit-prefixed"] = {"MaxLen": ck.q(3, 4), "histories": len(casesx)}
+            batches.append((f"coverx-{tag}", alias, casesx))
         # beyond the bound: TLC's simulator evaluates the exporting invariant on every successor of the last state
         # it visits, so behaviours come in families sharing a prefix: keep a seeded sample of each
         sims = [{"h": r["h"], "alias": alias} for r in results[("sim", alias)].by_tag("HIST")]
